@@ -17,6 +17,19 @@ def polar_modes(b, n):
 def chk_polar(inp):
     """orthonormal, piston-free, diagonalising the Kolmogorov covariance on the native polar grid; variances positive, non-increasing, tip = tilt"""
     seen = {}
+    # many modes (ordering / pairing of several hundred functions; orthonormality on the native grid), without the O(n^2) covariance check
+    for (ri, nr, nf) in ((0.2, 40, 200), (0.3, 30, 200), (0.1, 30, 300)):
+        b = KL.gkl_basis(ri, nr, 5 * nr, nfunc=nf, stf="kolstf")
+        ev = numpy.asarray(b["evals"])[:nf]
+        if len(ev) != nf or numpy.any(ev <= 0) or numpy.any(numpy.diff(ev) > 1e-12 * ev[0]):
+            bad_at = int(numpy.argmax(numpy.diff(ev) > 1e-12 * ev[0])) if len(ev) == nf else -1
+            return bad("variances of a %d-function basis (ri=%g, nr=%d) are not positive and non-increasing (first increase at mode %d)" % (nf, ri, nr, bad_at), ev[:8].tolist())
+        if abs(ev[0] - ev[1]) > 1e-9 * ev[0]:
+            return bad("tip and tilt are not the first two functions with equal variances (ri=%g, nr=%d, %d functions)" % (ri, nr, nf), [float(ev[0]), float(ev[1])])
+        K = polar_modes(b, nf)
+        G = numpy.einsum("ipq,jpq->ij", K, K) / (nr * 5 * nr)
+        if abs(G - numpy.eye(nf)).max() > 1e-7:
+            return bad("KL functions are not orthonormal on the polar grid (ri=%g, nr=%d, %d functions)" % (ri, nr, nf), float(abs(G - numpy.eye(nf)).max()), 0.0)
     for (ri, nr, nf) in ((0.25, 12, 15), (0.25, 12, 24), (0.1, 16, 20), (0.5, 10, 12), (0.25, 12, 15), (0.3, 9, 12), (0.2, 13, 18), (0.4, 15, 14)):
         b = KL.gkl_basis(ri, nr, 5 * nr, nfunc=nf, stf="kolstf")
         K = polar_modes(b, nf)
